@@ -188,37 +188,40 @@ class Recorder:
 
     # -- solver ---------------------------------------------------------------------
     def _check(self, constraints, timeout_ms=None):
-        s = z3.Solver()
-        s.set("timeout", int(timeout_ms or self.timeout_ms))
-        s.set("random_seed", seed() % 1000)
+        """portfolio: (1) z3's core SMT solver (fast on the bilinear beta*V terms), (2) z3's default
+        strategy, (3) nlsat.  `unknown` from all three = inconclusive."""
+        cons = []
         for c in constraints:
             if c is True:
                 continue
             if c is False:
                 return "unsat", None
-            s.add(c)
-        t = time.time()
-        r = str(s.check())
-        dt = time.time() - t
-        self.queries += 1
-        self.solver_time += dt
-        if r == "unknown":
-            # second engine: nlsat tactic for nonlinear real arithmetic
+            cons.append(c)
+        total = int(timeout_ms or self.timeout_ms)
+        plan = [
+            ("smt", lambda: z3.Tactic("smt").solver(), min(total, 15000)),
+            ("default", lambda: z3.Solver(), total),
+            ("nlsat", lambda: z3.Then("simplify", "purify-arith", "qfnra-nlsat").solver(), total),
+        ]
+        r = "unknown"
+        for name, mk, to in plan:
             try:
+                s = mk()
+                s.set("timeout", to)
+                if name != "nlsat":
+                    s.set("random_seed", seed() % 1000)
+                s.add(cons)
                 t = time.time()
-                s2 = z3.Then("simplify", "purify-arith", "qfnra-nlsat").solver()
-                s2.set("timeout", int(timeout_ms or self.timeout_ms))
-                for c in constraints:
-                    if c is not True:
-                        s2.add(c)
-                r2 = str(s2.check())
+                r = str(s.check())
                 self.queries += 1
                 self.solver_time += time.time() - t
-                if r2 != "unknown":
-                    return r2, (s2.model() if r2 == "sat" else None)
             except z3.Z3Exception:
-                pass
-        return r, (s.model() if r == "sat" else None)
+                r = "unknown"
+            if r == "unsat":
+                return r, None
+            if r == "sat":
+                return r, s.model()
+        return r, None
 
     def twin(self, assume, label="assumptions"):
         """vacuity guard: the assumption set must be satisfiable"""
